@@ -393,6 +393,12 @@ def replay(path: str) -> int:
         return 3
     want = vclass(doc["violation"])
     got = relevant(r, prop)
+    known = load_known(prop)
+    for x in list(got):
+        e = match_known(x, known)
+        if e is not None:
+            print("KNOWN-FINDING: property=%s %s [id=%s]" % (prop, e["what"], e["id"]))
+            got.remove(x)
     for h in (r.get("history") or [])[:200]:
         print("  step", json.dumps(h, default=str)[:300])
     for x in got:
